@@ -43,6 +43,16 @@ DESC = {
  "C17-2": "Async::register_waker skips the poller re-arm when a waker is already stored (direction may differ)",
  "C19-2": "remove_signals updates a local copy of the mask and never stores it back",
  "C20-2": "key encoder reduces the generation modulo MASK_VERSION (0xFFFF collides with 0)",
+ "C01-3": "a synthetic before_sleep event is queued with the registration token (sub-id 0) instead of the returned sub-token",
+ "C04-3": "the channel's self-wake-up on an exhausted batch is kept only for the unbounded channel",
+ "C05-3": "TimerWheel::cancel resets the arming counter to 0 when the heap becomes empty (counter reuse)",
+ "C08-3": "dispatch_idles puts the drained Vec back (same edit as C13-1): insert_idle from an idle callback is lost",
+ "C09-3": "an explicit return and a deferred request are combined with | (Remove|Disable = Reregister)",
+ "C11-3": "Poll::poll waits again when the wait returned early without events before the timer deadline (swallows wake-ups)",
+ "C13-3": "insert_idle reuses the list position of a cancelled idle (insertion order broken)",
+ "C14-3": "EventIterator filters by full token equality with the registration token (drops events of sub-ids > 0)",
+ "C16-3": "TransientSource::unregister treats the pending Disable state as not registered (fd stays in the poller)",
+ "C18-3": "remove() while a replacement is pending turns the never registered replacement into Remove and drops the old child",
  "C20-1": "TokenFactory::token stops advancing at the last sub-id (hands the same token out again)",
 }
 print("| seed | change (source files) | quick checks run with it applied → verdict, failing obligations | trial history |")
